@@ -25,6 +25,9 @@ LBX = "urwid/widget/listbox.py:"
 WIDGET = Opaque("Widget")
 
 
+NOPOS = -7777  # stands for the `None` position of a (None, None) answer
+
+
 class ListWalkerProtocol(Protocol):
     kind = "ListWalker"
 
@@ -33,15 +36,27 @@ class ListWalkerProtocol(Protocol):
         g = PROTOCOLS["ListWalker"].call_quiet(st, w, "get_focus", {})
         return [neg(mk_bool(g[0].isnone)), g[1] == a["position"]]
 
+    def _ens_neighbour(st, w, a, r):
+        # (None, None) is modelled as (None, NOPOS): an integer no walker uses as a position (see `methods`)
+        return [ite(mk_bool(r[0].isnone), r[1] == NOPOS, both(neg(r[1] == NOPOS), neg(r[1] == a["position"])))]
+
+    def _ens_get_focus(st, w, a, r):
+        return [either(mk_bool(r[0].isnone), neg(r[1] == NOPOS))]
+
     methods = {
-        "get_focus": PMethod(Tup(Opt(WIDGET), Int), params=[]),
+        "get_focus": PMethod(Tup(Opt(WIDGET), Int), params=[], ensures=_ens_get_focus),
         "set_focus": PMethod(None, params=["position"], mutates=True, ensures=_ens_set_focus),
         # (widget, position) of the neighbour, or (None, None) at the end of the list; functions of the walker's state.
-        # The position component of a (None, None) answer is modelled as an arbitrary integer: the code under contract
-        # never looks at it (calculate_visible stops at once; render's `next_pos is not None` stands next to
-        # `widget is not None` in the same `all(...)`).
-        "get_prev": PMethod(Tup(Opt(WIDGET), Int), params=["position"]),
-        "get_next": PMethod(Tup(Opt(WIDGET), Int), params=["position"]),
+        # Positions are integers here; the position component of a (None, None) answer is modelled by the integer NOPOS,
+        # which is no position of any walker.  The code under contract looks at it in two places, both in render:
+        # `next_pos is not None` (next to `widget is not None` in the same `all(...)`: same truth value as long as the two
+        # components are None together) and `next_pos == next_next_pos` (a real position never equals NOPOS, as it
+        # never equals None).
+        # A neighbour is never the position asked about ("positions form a chain"): render's own consistency check
+        # raises ListBoxError("Next position after ... is invalid (points to itself)") for a walker that answers so.
+        # (SimpleListWalker(wrap_around=True) with ONE item does answer so -- outside this protocol.)
+        "get_prev": PMethod(Tup(Opt(WIDGET), Int), params=["position"], ensures=_ens_neighbour),
+        "get_next": PMethod(Tup(Opt(WIDGET), Int), params=["position"], ensures=_ens_neighbour),
     }
     has = {"get_focus": True, "set_focus": True, "get_prev": True, "get_next": True}
 
